@@ -225,6 +225,7 @@ def write_evidence(prop, tier, seed, agg, wall, det, extra_assumptions=()):
     evdir = os.environ.get("VERIF_EVIDENCE_DIR") or os.path.join(VERIF_DIR, "evidence")
     os.makedirs(evdir, exist_ok=True)
     jdump(ev, os.path.join(evdir, prop + ".json"))
+    jdump(ev, os.path.join(evdir, "%s.%s.json" % (prop, tier)))  # kept per tier as well
     return zero
 
 
